@@ -82,7 +82,7 @@ def descriptor(kind):
     return parse(add_checksum(text))
 
 
-def build(mix, ht, seq=5, lock=0, version=2, v2=False, per_input_ht=None, seqs=None, in_value=100_000):
+def build(mix, ht, seq=5, lock=0, version=2, v2=False, per_input_ht=None, seqs=None, in_value=100_000, required=None):
     """-> (psbt, prevouts).  One input per kind of `mix`, one wpkh output per input."""
     from btclib.psbt.psbt import Psbt
     from btclib.tx import OutPoint, Tx, TxIn, TxOut
@@ -106,6 +106,14 @@ def build(mix, ht, seq=5, lock=0, version=2, v2=False, per_input_ht=None, seqs=N
             psbt.inputs[i].sig_hash_type = h
     if v2:
         psbt = psbt.to_v2()
+        # BIP370: an input may require a lock time (time-based and/or height-based); the transaction's is computed from them
+        for i, (t, h) in enumerate(required or []):
+            if t is not None:
+                psbt.inputs[i].required_time_lock_time = t
+            if h is not None:
+                psbt.inputs[i].required_height_lock_time = h
+        if required:
+            psbt.assert_valid()
     return psbt, [po for _, po in prev]
 
 
@@ -129,7 +137,7 @@ def solver_for(mix):
 
     def solver(psbt, vin_i):
         kind = mix[vin_i]
-        if kind not in ("tr-multi_a", "tr-miniscript", "tr-tree"):
+        if not kind.startswith(("tr-multi_a", "tr-miniscript", "tr-tree")):
             return miniscript_solver(psbt, vin_i)
         pin = psbt.inputs[vin_i]
         sigs = {}
